@@ -15,12 +15,13 @@ def check(pid, level, text, note, technique, design_ref):
 
 
 check("C13", "model_checking",
-      "TLC explores spec/AnnealResults.tla (one action per list operation of the statement, two collections) exhaustively "
+      "TLC explores spec/AnnealResults.tla (one action per list operation of the statement incl. sort with a caller's key / reverse and "
+      "extend / += with one-shot iterators, two collections) exhaustively "
       "at small constants with BestIsMin/NoRaise as invariants; the dumped state graph and simulated behaviours are "
       "replayed on the real AnnealResults and every recorded step is validated by spec/AnnealResultsTrace.tla "
       "(list contents pinned, BestIsMin evaluated on the implementation's own state). A stale or wrong `best`, an exception "
       "or a non-AnnealResults derived collection after ANY explored history is reported.",
-      "bounded: lists of length <= 2-4, values from a 2-3 element set incl. duplicates, <= 12 results per history; "
+      "bounded: lists of length <= 2-4, values from a 2-3 element set incl. duplicates, zero and a negative value, <= 12 results per history; "
       "trusted: TLC, the projection of real objects (state dict -> id) in harness/c13.py",
       "TLA+ state machine + TLC exhaustive check; spec behaviours replayed into the class; trace validation by TLC",
       "DESIGN 3 C13")
@@ -28,10 +29,12 @@ check("C13", "model_checking",
 check("C14", "model_checking",
       "TLC explores spec/ModelObj.tla (every mutator built from one __setitem__ exactly as the code composes them: item/augmented "
       "assignment incl. zero values and repeated labels, += -= *= **= with dict/model/scalar operands, update, clear, refresh, copy, "
-      "constraint methods, enumerated forms, set_mapping) exhaustively to a depth bound for six pairs of classes covering all ten kinds, with "
+      "constraint methods, enumerated forms, set_mapping, in-place scalar - and /) exhaustively to a depth bound for six pairs of classes covering all ten kinds, with "
       "UpperBounds / MappingBijection / StoredCanonical / AncCovers as invariants and RefreshExact / AncNeverReused as action "
       "properties. Every transition of the 2-step graph and long simulated histories are replayed on the real classes with labels "
-      "of mixed hashable types; spec/ModelObjTrace.tla validates each recorded step: stored function pinned, the C14 contract "
+      "of mixed hashable types, as are directed histories (one weight per operation) and pairs of objects of the same class; the "
+      "in-place forms between every ordered pair of classes over the universe of spec/GenPoly.tla are judged by spec/CheckBin.tla "
+      "(Bookkeeping); spec/ModelObjTrace.tla validates each recorded step: stored function pinned, the C14 contract "
       "evaluated on the implementation's own caches, mapping, reverse mapping, ancilla counter and enumerated forms.",
       "bounded: <= 3 labels, coefficients in {-1,0,1}, raw keys of length <= 3, histories of <= 4 steps exhaustively and <= 14 steps "
       "by simulation; trusted: TLC, the projection in harness/modelobj.py",
@@ -141,7 +144,8 @@ check("C19", "model_checking",
       "mapping, constraints, name, ancilla count), so aliasing between a model and its copy / info clone / getter result / operand is "
       "caught as soon as either side is mutated; info round trips must reproduce type, terms, name, mapping, ancilla count, constraints "
       "and get_info equality. 110 library entry points (conversions, solvers, annealers, sat builders, constraint methods, problems, "
-      "operators) are called with deep snapshots of their arguments; spec/CheckImmutable.tla asserts the recorded observations.",
+      "operators) are called with deep snapshots of their arguments, then the harness writes into the call's RESULT and compares the "
+      "arguments again; spec/CheckImmutable.tla asserts the recorded observations (ArgUnchanged, ResultIndependent).",
       "bounded histories (<= 3 steps exhaustive, <= 12 simulated); argument immutability is an observation per call, not a proof",
       "TLA+ state machine checked by TLC; spec behaviours replayed into the classes; trace validation by TLC", "DESIGN 3 C19")
 
